@@ -18,7 +18,8 @@ def c02 (args res : List String) : Verdict :=
       let tag := s!"e2e-peers{min honest 3}-droppers{min droppers 2}" ++ (if stayS = "1" then "-stay" else "-leave") ++
         (if lens.length = 1 then "-single" else "-multi") ++ (if lens.any (· = 0) then "-emptyfile" else "")
       let get (key : String) : String := (res.filterMap fun t => if t.startsWith (key ++ "=") then some ((t.drop (key.length + 1)).toString) else none).headD "?"
-      if model ≠ expected then vDiff "extract-model" "model-differs-from-spec" tag
+      if res.head? = some "spawn-failed" ∨ res.head? = some "child-failed" then vBad ("e2e harness could not run: " ++ joinToks res)
+      else if model ≠ expected then vDiff "extract-model" "model-differs-from-spec" tag
       else if get "panics" ≠ "0" then vProp s!"a-task-panicked-{get "panics"}" tag
       else if get "session" ≠ "alive" then vProp "session-ended" tag
       else if get "files" = "?" then vProp ("run-failed-" ++ "-".intercalate res) tag
